@@ -103,6 +103,7 @@ type OnCall struct {
 		Name string
 		Expr Clause
 	}
+	Assumes []Clause // trusted facts about an external callee stated over ghost state (listed as assumptions)
 	Checks []Clause // obligations at the call (arguments arg0.., locals, ghosts in scope)
 }
 
@@ -154,6 +155,7 @@ type ContractSet struct {
 	Frames []*FrameSpec
 	PkgStates []*PkgStateSpec
 	Sweeps []SweepEntry
+	Rxps   []*RxpSpec
 	Scoped map[string]*Contract // `only PROPS` contracts, consulted before Funcs when the property matches
 	FieldInvs []*FieldInv
 	FieldGroups map[string][]string
@@ -257,6 +259,31 @@ func (cs *ContractSet) LoadFile(file string) error {
 			}
 			curFrame = &FrameSpec{Key: key, File: where}
 			cs.Frames = append(cs.Frames, curFrame)
+			cur = nil
+			continue
+		}
+		if word == "rxp" {
+			// rxp NAME props C01 regexp VAR language: W
+			k := strings.Index(rest, "language:")
+			if k < 0 {
+				return fmt.Errorf("%s: rxp needs 'language:'", where)
+			}
+			f := strings.Fields(rest[:k])
+			sp := &RxpSpec{Language: strings.TrimSpace(rest[k+len("language:"):]), File: where, Pkg: pkg}
+			mode := ""
+			for i, w := range f {
+				switch {
+				case i == 0:
+					sp.Name = w
+				case w == "props" || w == "regexp":
+					mode = w
+				case mode == "props":
+					sp.Props = append(sp.Props, w)
+				case mode == "regexp":
+					sp.Global = pkg + "." + w
+				}
+			}
+			cs.Rxps = append(cs.Rxps, sp)
 			cur = nil
 			continue
 		}
@@ -620,9 +647,12 @@ func (cs *ContractSet) LoadFile(file string) error {
 				oc := OnCall{}
 				k := strings.Index(rest, " do ")
 				isCheck := false
+				isAssume := false
 				if k < 0 {
 					if k = strings.Index(rest, " check "); k >= 0 {
 						isCheck = true
+					} else if k = strings.Index(rest, " assume "); k >= 0 {
+						isAssume = true
 					}
 				}
 				if k < 0 {
@@ -632,6 +662,9 @@ func (cs *ContractSet) LoadFile(file string) error {
 				body := rest[k+4:]
 				if isCheck {
 					body = rest[k+7:]
+				}
+				if isAssume {
+					body = rest[k+8:]
 				}
 				if w := strings.Index(head, " when "); w >= 0 {
 					c, err := parseClause(head[w+6:], where)
@@ -646,12 +679,16 @@ func (cs *ContractSet) LoadFile(file string) error {
 					head = head[:h]
 				}
 				oc.Callee = head
-				if isCheck {
+				if isCheck || isAssume {
 					c, err := parseClause(body, where)
 					if err != nil {
 						return err
 					}
-					oc.Checks = append(oc.Checks, c)
+					if isCheck {
+						oc.Checks = append(oc.Checks, c)
+					} else {
+						oc.Assumes = append(oc.Assumes, c)
+					}
 					cur.OnCalls = append(cur.OnCalls, oc)
 					break
 				}
